@@ -220,6 +220,8 @@ def coq_out(o):
         return "OExc"
     if o[0] == "invalid":
         return "OInvalid"
+    if o[0] == "swallowed":
+        return "ODone"
     return f"(OAns ({coq_answer(o[1])}))"
 
 
@@ -261,6 +263,15 @@ def coq_obs(ob, regs, it, ctx_names=("rc", "rs")):
 
 
 def coq_node(r, op, out, ob, regs, kids, it):
+    if op[0] == "deco":
+        # the decorator form is a with-block of one context around the decorated call: in the model
+        # an enter node (observed from inside the function) followed by the exit / raise node
+        enter = ("with", (op[1],), op[2])
+        if out[0] != "deco":                       # the activation itself failed
+            return coq_node(r, enter, out, ob, regs, kids, it)
+        _, oe, obi, ox = out
+        inner = coq_node(r, ("raise",) if op[3] else ("exit",), ox, ob, regs, kids, it)
+        return coq_node(r, enter, oe, obi, regs, [inner], it)
     return (f"Node ({coq_bool(r == 1)}, " + it("P", "op", coq_op(op)) + f") {coq_out(out[:2])} "
             f"{coq_obs(ob, regs, it)} {coq_list(kids)}")
 
@@ -441,6 +452,32 @@ class World:
         except Exception as e:
             return ("E", errclass(e))
 
+    def deco(self, r, op, obs_fn):
+        """op = ("deco", name, kwargs, raises): call a function decorated with
+        ureg.with_context(name, **kwargs); the function observes the registry from inside and, if
+        `raises`, raises.  Returns ("deco", enter outcome, inside observation, exit outcome) or the
+        failure of the activation."""
+        u = self.regs[r]
+        inside = {}
+
+        def body():
+            inside["ob"] = obs_fn()
+            inside["ob"]["regs"][r]["frames"] += 1      # the decorator's own block
+            if op[3]:
+                raise Injected("raised inside the decorated function")
+            return 42
+
+        try:
+            res = u.with_context(op[1], **dict(op[2]))(body)()
+            ox = ("swallowed",) if op[3] or res != 42 else ("done",)
+        except Injected:
+            ox = ("exc",)
+        except Exception as e:
+            if "ob" not in inside:
+                return ("failed", errclass(e), type(e).__name__)
+            ox = ("failed", errclass(e), type(e).__name__)
+        return ("deco", ("done",), inside["ob"], ox)
+
     def do(self, r, op):
         u = self.regs[r]
         k = op[0]
@@ -491,6 +528,29 @@ class World:
 
 # ------------------------------------------------------------------ property oracles (real registry only)
 STRICT_LAYERS = [True]     # cleared by detect_quirks on a tree that rebuilds overlays on a cache hit (F110)
+
+
+def do_and_judge(w, orc, op, ob0, obs_fn):
+    """run one operation of a single-registry run and feed the oracles; returns (outcome, observation)"""
+    if op[0] == "deco":
+        out = w.deco(0, op, obs_fn)
+        ob1 = obs_fn()
+        enter = ("with", (op[1],), op[2])
+        if out[0] == "deco":
+            _, oe, obi, ox = out
+            orc.step(enter, oe, ob0, obi, ob0["ctx"], obi["ctx"])
+            orc.n -= 1                                  # both halves belong to the same operation
+            orc.step(("raise",) if op[3] else ("exit",), ox, obi, ob1)
+        else:
+            orc.step(enter, out, ob0, ob1, ob0["ctx"], ob1["ctx"])
+    else:
+        out = w.do(0, op)
+        ob1 = obs_fn()
+        orc.step(op, out, ob0, ob1, ob0["ctx"], ob1["ctx"])
+    orc.stack_probe(w, ob1["regs"][0])
+    if op[0] == "probe" and op[1][0] == "base" and out[0] == "ans":
+        orc.base_probe(w, op[1], out[1])
+    return out, ob1
 
 
 class Oracle:
@@ -683,12 +743,7 @@ def run_sequence(ops, sweep=True, fast=False):
     ob0 = w.obs(sweep=sweep, ctx=ctxn)
     steps = []
     for op in ops:
-        out = w.do(0, op)
-        ob1 = w.obs(sweep=sweep, ctx=ctxn)
-        orc.step(op, out, ob0, ob1, ob0["ctx"], ob1["ctx"])
-        orc.stack_probe(w, ob1["regs"][0])
-        if op[0] == "probe" and op[1][0] == "base" and out[0] == "ans":
-            orc.base_probe(w, op[1], out[1])
+        out, ob1 = do_and_judge(w, orc, op, ob0, lambda: w.obs(sweep=sweep, ctx=ctxn))
         steps.append((out, ob1))
         ob0 = ob1
     w.close()
@@ -706,7 +761,8 @@ ALPHABET = {
     "mid": [("en", ("ra",), ()), ("en", ("rb",), ()), ("en", ("rc",), ()), ("en", ("rd",), ()),
             ("dis", None), ("dis", 1), ("with", ("rb",), ()), ("with", ("rc",), ()), ("exit",), ("raise",),
             ("probe", ("base", U(yard=1))), ("def", "smoot")],
-    "order": [("en", ("rb",), ()), ("en", ("rf",), ()), ("dis", None), ("with", ("rc",), ()), ("exit",)],
+    "order": [("en", ("rb",), ()), ("en", ("rf",), ()), ("dis", None), ("with", ("rc",), ()), ("exit",),
+              ("deco", "rb", (), True)],
     "tiny": [("en", ("rb",), ()), ("dis", None), ("with", ("rc",), ()), ("exit",), ("def", "smoot")],
     "lean": [("en", ("ra",), ()), ("en", ("rb",), ()), ("en", ("rc",), ()),
              ("en", ("re",), ()), ("dis", None), ("with", ("rc",), ()), ("exit",), ("raise",),
@@ -715,7 +771,8 @@ ALPHABET = {
              ("en", ("rd",), ()), ("en", ("re",), ()), ("en", ("rb", "ra"), ()), ("dis", None), ("dis", 1),
              ("with", ("ra",), ()), ("with", ("rb",), ()), ("with", ("rc",), kwt(k=3)), ("with", ("rd",), ()),
              ("with", ("rb", "re"), ()),
-             ("exit",), ("raise",), ("probe", ("base", U(yard=1))), ("def", "smoot")],
+             ("exit",), ("raise",), ("probe", ("base", U(yard=1))), ("def", "smoot"),
+             ("deco", "rc", kwt(k=3), True), ("deco", "ra", (), False)],
 }
 
 
@@ -760,7 +817,7 @@ def explore_subtree(args):
     def node(seq):
         steps, found = run_sequence(seq, fast=len(seq) > 2)
         count[0] += 1
-        nontriv[0] += any(o[0] in ("en", "with") for o in seq)
+        nontriv[0] += any(o[0] in ("en", "with", "deco") for o in seq)
         for key, desc, n in found:
             if key not in findings or len(findings[key][1]) > n:
                 findings[key] = (desc, [op_json(o) for o in seq[:n]])
@@ -883,8 +940,10 @@ def random_ops(rng, n):
             ops.append((rng.choice(["en", "with"]), cs, kw))
         elif x < 0.40:
             ops.append(("dis", rng.choice([None, 1, 1, 2, 0])))
-        elif x < 0.52:
+        elif x < 0.48:
             ops.append((rng.choice(["exit", "raise"]),))
+        elif x < 0.52:
+            ops.append(("deco", rng.choice(names[:5]), rng.choice([(), kwt(n=5)]), rng.random() < 0.6))
         elif x < 0.57:
             ops.append(("def", rng.choice(sorted(DEFINABLE))))
         elif x < 0.67:
@@ -904,12 +963,7 @@ def run_random(args):
     ob0 = w.obs(sweep=True, ctx=ctxn)
     nodes = []
     for op in ops:
-        out = w.do(0, op)
-        ob1 = w.obs(sweep=rng.random() < 0.5, ctx=ctxn)
-        orc.step(op, out, ob0, ob1, ob0["ctx"], ob1["ctx"])
-        orc.stack_probe(w, ob1["regs"][0])
-        if op[0] == "probe" and op[1][0] == "base" and out[0] == "ans":
-            orc.base_probe(w, op[1], out[1])
+        out, ob1 = do_and_judge(w, orc, op, ob0, lambda: w.obs(sweep=rng.random() < 0.5, ctx=ctxn))
         nodes.append((op, out, ob1))
         ob0 = ob1
     it = Interner()
@@ -975,7 +1029,7 @@ def detect_quirks(ck):
 # ------------------------------------------------------------------ the check
 PLAN = {
     "quick": dict(single=[("full", 3), ("lean", 4), ("core", 5), ("order", 5)], two=4, random=(150, 30)),
-    "thorough": dict(single=[("full", 4), ("mid", 4), ("lean", 5), ("core", 6), ("tiny", 7), ("order", 7)], two=5, random=(1500, 30)),
+    "thorough": dict(single=[("full", 4), ("mid", 4), ("lean", 5), ("core", 6), ("tiny", 7), ("order", 6)], two=4, random=(1500, 30)),
 }
 
 
@@ -1205,11 +1259,21 @@ def run(ck):
         seq, two = pinpoint(ck, header, desc)
         shown = ""
         if seq is not None:
-            ops_txt = coq_list([f"({coq_bool(r == 1)}, {coq_op(o)})" for r, o in (seq if two else [(0, o) for o in seq])])
+            flat = []
+            for r, o in (seq if two else [(0, o) for o in seq]):
+                if o[0] == "deco":     # decorator form = enter + exit / raise in the model
+                    flat += [(r, ("with", (o[1],), o[2])), (r, ("raise",) if o[3] else ("exit",))]
+                else:
+                    flat.append((r, o))
+            ops_txt = coq_list([f"({coq_bool(r == 1)}, {coq_op(o)})" for r, o in flat])
             shown = ck.coq_show(header, f"model_obs {'SUv2' if two else 'SUv'} {ops_txt} false")
             w = World(two)
             for x in seq:
-                last = w.do(*(x if two else (0, x)))
+                if not two and x[0] == "deco":
+                    last = w.deco(0, x, lambda: w.obs(sweep=False))
+                    last = (last[0], last[1], last[3]) if last[0] == "deco" else last
+                else:
+                    last = w.do(*(x if two else (0, x)))
             impl = (last, w.obs(regs=(0, 1) if two else (0,), probes=PROBES_W2 if two else PROBES))
             w.close()
         if all(ck._match_known(k) for k in findings):
